@@ -26,8 +26,10 @@ harnesses! {
     #[kani::stub(alloc::fmt::format, crate::stubs::fmt_stub)]
     fn sunlit_fraction_horizontal(s) {
         let mut m = Model::default();
-        let has_wall = s.bool();
-        let has_pos = s.bool();
+        // element counts are concrete (symbolic vector lengths are not survivable); the missing-wall and
+        // missing-position cases are decided in sunlit_fraction_missing
+        let has_wall = true;
+        let has_pos = true;
         let mut w = wall(10, BoundaryType::EXTERIOR, 9, 1, None, 0.0, rect(4.0, 4.0));
         w.geometry.position = if has_pos { Some(point![0.0, 0.0, 0.0]) } else { None };
         if has_wall { m.walls.push(w); }
@@ -36,7 +38,7 @@ harnesses! {
         let (x1, y1, z1) = (s.int(-2, 3), s.int(-2, 3), s.int(1, 3));
         let (x2, y2, z2) = (s.int(-2, 3), s.int(-2, 3), s.int(1, 3));
         let kind2 = s.below(4);
-        let n_occ = s.below(3);
+        let n_occ = 2;
         let mut occs: Vec<Occluder> = Vec::new();
         if n_occ >= 1 { occs.push(occ(60, None, x1, y1, 2, 2, z1)); }
         if n_occ >= 2 {
@@ -79,6 +81,28 @@ harnesses! {
         cover!(has_wall && has_pos && dz > 0 && n_occ == 2 && kind2 == 1, "an obstacle with the wall's own id is ignored");
         assert!(got >= 0.0 && got <= 1.0, "C12:sunlit fraction lies in [0,1]");
         assert!(got == want, "C12:sunlit fraction = share of sample points whose ray towards the sun meets no candidate obstacle");
+        std::mem::forget((m, occs));
+    }
+
+    /// 1.0 when the window's wall is missing or has no geometric position
+    #[kani::unwind(6)]
+    #[kani::stub(alloc::fmt::format, crate::stubs::fmt_stub)]
+    fn sunlit_fraction_missing(s) {
+        let mut m = Model::default();
+        let has_pos = s.bool();
+        let wall_ok = s.bool();
+        let mut w = wall(10, BoundaryType::EXTERIOR, 9, 1, None, 0.0, rect(4.0, 4.0));
+        w.geometry.position = if has_pos { Some(point![0.0, 0.0, 0.0]) } else { None };
+        m.walls.push(w);
+        let win = Window { id: uid(40), name: String::new(), cons: uid(8), wall: if wall_ok { uid(10) } else { uid(11) }, geometry: WinGeom { position: Some(point![1.0, 1.0]), height: 2.0, width: 2.0, setback: 0.0 } };
+        let occs: Vec<Occluder> = Vec::new();
+        let o = [point![1.5f32, 1.5, 0.0]];
+        let dz = if s.bool() { 1.0 } else { -1.0 };
+        let got = m.sunlit_fraction(&win, &o, &vector![0.0, 0.0, dz], &occs);
+        cover!(!wall_ok, "window without wall");
+        cover!(wall_ok && has_pos && dz < 0.0, "sun behind the window");
+        let want = if !wall_ok || !has_pos { 1.0 } else if dz < 0.0 { 0.0 } else { 1.0 };
+        assert!(got == want, "C12:1 without wall or position; 0 with the sun behind; 1 when nothing can hide the window");
         std::mem::forget((m, occs));
     }
 }
